@@ -68,6 +68,11 @@ func SliceAppend(src Slice, data unsafe.Pointer, num, etSize int) Slice {
 func GrowSlice(src Slice, num, etSize int) Slice {
 	oldLen := src.len
 	newLen := oldLen + num
+	if newLen < 0 {
+		// oldLen + num overflowed int (only reachable with zero-size
+		// elements); the signed comparison below would accept it.
+		panic(errorString("growslice: len out of range"))
+	}
 	if newLen > src.cap {
 		newCap := nextslicecap(newLen, src.cap)
 		p := AllocZ(uintptr(newCap * etSize))
